@@ -56,7 +56,8 @@ CHECKS = {
              "header/body/random positions) fed to the real server after a random negotiation history, plus directed "
              "invalid-argument messages; distinct by the stream's mutation description; non-trivial = the server "
              "parsed at least the first header under the panic/validity monitors",
-        units=[U("streams", "hv", "c05", shards=(8, 16), crash_is_violation=True)],
+        units=[U("streams", "hv", "c05", shards=(8, 16), crash_is_violation=True),
+               U("daemon", "hd", "c05", shards=(6, 16), crash_is_violation=True)],
     ),
     "C06": dict(
         level="exploration",
@@ -70,7 +71,8 @@ CHECKS = {
         rule="one case = one scenario (hostile stream with 0..=40 descriptors to a server torn down after k requests; "
              "frontend call answered with 0..=40 wanted/unwanted descriptors; proxies lent descriptors) bracketed by "
              "two /proc/self/fd censuses; distinct by scenario description and teardown point",
-        units=[U("census", "hv", "c09", shards=(6, 16))],
+        units=[U("census", "hv", "c09", shards=(6, 16)),
+               U("daemon-census", "hd", "c09", shards=(4, 12))],
     ),
     "C10": dict(
         level="exploration",
@@ -81,6 +83,65 @@ CHECKS = {
         units=[U("schedules", "hv", "c10", shards=(6, 12)),
                U("tsan-stress", "hv", "c10", build="tsan", tiers=("thorough",), shards=(1, 1),
                  args=dict(thorough=["--only", "stress"]), env={"TSAN_OPTIONS": "halt_on_error=0 report_signal_unsafe=0"})],
+    ),
+    "C11": dict(
+        level="model_checking",
+        rule="one case = one control-message history on 2 rings replayed against a fresh real daemon (1 or 2 workers, "
+             "Mutex-/RwLock-backed rings) and the reference vring state machine, with quiescent-point assertions "
+             "after every step; exhaustive over the 15-symbol alphabet to depth 3 (quick) / 4 (thorough), plus every "
+             "extension of a started+enabled prefix, random histories to depth 20; distinct by (variant, applied ops)",
+        units=[U("histories", "hd", "c11", shards=(8, 16))],
+    ),
+    "C12": dict(
+        level="exploration",
+        rule="one case = one schedule: a merge of the control token sequence D1 D2 D3 R1 R2 R3 (state changed, epoll "
+             "updated, reply read; for the deactivating and the reactivating message) with the worker sequence "
+             "K W1 W2 W3 (kick raised; woken, kick read, dispatch granted): all C(10,4)=210 merges x 3 scenarios "
+             "(disable/enable, stop/restart, reset/enable) x ring lock flavour; distinct by the interleaving actually "
+             "observed; plus an unsynchronised kicker/toggler stress run",
+        units=[U("schedules", "hd", "c12", shards=(8, 16)),
+               U("tsan-stress", "hd", "c12", build="tsan", tiers=("thorough",), shards=(1, 1),
+                 args=dict(thorough=["--only", "stress"]), env={"TSAN_OPTIONS": "halt_on_error=0 report_signal_unsafe=0"})],
+    ),
+    "C13": dict(
+        level="exploration",
+        rule="one case = one history of SET_MEM_TABLE / ADD_MEM_REG / REM_MEM_REG over a pool of 11 regions (disjoint, "
+             "adjacent, overlapping, duplicate, unmappable fd, unaligned offset, user ranges across the 64-bit space) "
+             "with region-set, two-view byte probes and SET_VRING_ADDR translation probes after every step; distinct "
+             "by the op/outcome trace",
+        units=[U("memory", "hd", "c13", shards=(6, 16))],
+    ),
+    "C14": dict(
+        level="exploration",
+        rule="one case = one acknowledged ring/feature message followed by a sample of the queue accessors taken on the "
+             "worker thread: ring sizes (0..=260, 2^k+-1, random; all 65536 in thorough), bases, address triples with "
+             "used-index contents, out-of-range indexes x 8 message kinds, SET_FEATURES masks vs random offered masks, "
+             "backend-request channel inheritance (8 combinations), add_used/signal histories over table and call-fd "
+             "replacement; distinct by the message values",
+        units=[U("rings", "hd", "c14", shards=(4, 12))],
+    ),
+    "C15": dict(
+        level="exploration",
+        rule="one case = one backend write (Bytes::write, volatile slice at an inner offset, write_obj, add_used) after "
+             "SET_LOG_BASE on a random 1..=4-region page-aligned layout, followed by a full read-back of the log file "
+             "(window + canaries) against the shadow bitmap; log-size boundary cases; memory-table changes in between; "
+             "2..=16 concurrent writers on bits of the same log byte; distinct by history trace",
+        units=[U("dirtylog", "hd", "c15", shards=(6, 16)),
+               U("valgrind", "hd", "c15", build="valgrind", tiers=("thorough",), shards=(2, 2), timeout=(1800, 1800))],
+    ),
+    "C16": dict(
+        level="fault_enumeration",
+        rule="one case = (daemon-thread position, number of shutdown callers, order of {release daemon, start caller i, "
+             "finish caller i}) - all orders for 1-2 callers, sampled for 3 - or (request, peer close offset) without "
+             "shutdown, or serve()/drop scenarios; distinct by (position, callers, schedule) resp. (request, offset)",
+        units=[U("teardown", "hd", "c16", shards=(4, 12))],
+    ),
+    "C17": dict(
+        level="exploration",
+        rule="one case = (queues-per-thread configuration, kicked queue) or one custom listener id; exhaustive over all "
+             "mask assignments for n<=3 queues x t<=2 threads with one bit beyond the queue count (quick) / n<=4,t<=3 "
+             "(thorough), structured and random configurations up to 6 queues / 3 threads, ids across the 64-bit range",
+        units=[U("routing", "hd", "c17", shards=(8, 16))],
     ),
     "C18": dict(
         level="exploration",
@@ -96,6 +157,17 @@ CHECKS = {
              "to depth 3 (quick) / 4-5 (thorough) with a probe after every prefix, proxy enable flags; distinct by "
              "(subset/order id, operation)",
         units=[U("gates", "hv", "c07", shards=(8, 16))],
+    ),
+    "C19": dict(
+        level="exploration",
+        rule="one case = one operation of a kernel backend (VhostKernVdpa inherent + trait paths, Net, Vsock, backend "
+             "features, IOTLB v1/v2, dma_map/unmap) with lattice/random arguments (queue indexes, 64-bit addresses, "
+             "1..=255 region tables, 0..=256-byte config buffers, 1-3 region guest memories), captured at the syscall "
+             "boundary by the LD_PRELOAD shim; distinct by (operation, argument bytes expected from the UAPI header)",
+        units=[U("uapi", "hk", "c19", shards=(2, 8), prebuild="sh harness/interpose/build.sh",
+                 preload="/verif/target/interpose/libhkshim.so"),
+               U("valgrind", "hk", "c19", build="valgrind", tiers=("thorough",), shards=(1, 1), timeout=(1800, 1800),
+                 prebuild="sh harness/interpose/build.sh", preload="/verif/target/interpose/libhkshim.so")],
     ),
     "C20": dict(
         level="exploration",
